@@ -135,3 +135,761 @@ def _first_body_line(fn, lock_keys):
             return st.body[0].lineno
     body = [s for s in fn.body if not (isinstance(s, ast.Expr) and isinstance(getattr(s, "value", None), ast.Constant))]
     return (body or fn.body)[0].lineno
+
+
+def _parse(path):
+    with open(path) as fh:
+        src = fh.read()
+    try:
+        return ast.parse(src, filename=path)
+    except SyntaxError as e:
+        raise ScanError(f"{path}: {e}")
+
+
+def scan_runtime(path):
+    tree = _parse(path)
+    par = _parents(tree)
+    fns = _functions(tree)
+    locks = _module_locks(tree)
+    if not locks:
+        raise ScanError("runtime.py: no module-level threading.Lock()")
+    shared = {"_RUNTIMES", "_PREVIOUS", "_DEFAULT_HANDLERS"}
+    for nm in ("_RUNTIMES", "_DEFAULT_HANDLERS"):
+        if not any(isinstance(n, (ast.Assign, ast.AnnAssign)) and nm in
+                   [getattr(t, "id", None) for t in (n.targets if isinstance(n, ast.Assign) else [n.target])]
+                   for n in tree.body):
+            raise ScanError(f"runtime.py: module-level table {nm} not found")
+    is_shared = lambda n: isinstance(n, ast.Name) and n.id in shared  # noqa: E731
+    spec = {"enter_atomic": "Runtime.__enter__", "exit_atomic": "Runtime.__exit__",
+            "current_atomic": "current_runtime", "inherit_atomic": "inherit",
+            "register_default_atomic": "handle_by_default"}
+    flags, detail, lines = {}, {}, {}
+    for flag, fname in spec.items():
+        fn = fns.get(fname)
+        if fn is None:
+            raise ScanError(f"runtime.py: function {fname} not found")
+        acc = _accesses(fn, par, is_shared)
+        if not acc:
+            raise ScanError(f"runtime.py: {fname} does not access the shared tables directly (shape not recognised)")
+        if fname in ("Runtime.__enter__", "Runtime.__exit__"):
+            # any store into an attribute of self is a write to an object shared between threads
+            for n in ast.walk(fn):
+                if isinstance(n, ast.Attribute) and isinstance(n.ctx, (ast.Store, ast.Del)):
+                    raise ScanError(f"runtime.py:{n.lineno}: {fname} writes attribute "
+                                    f"'{_expr_key(n)}' of an object shared between threads (not modelled: "
+                                    f"the model keeps the saved runtimes per thread)")
+            if not any(n.id == "_RUNTIMES" and w for n, w, _ in acc):
+                raise ScanError(f"runtime.py: {fname} does not write _RUNTIMES")
+        flags[flag] = all(any(k in locks for k in ws) for _, _, ws in acc)
+        detail[fname] = [dict(name=n.id, line=n.lineno, write=w, locked=any(k in locks for k in ws))
+                         for n, w, ws in acc]
+        lines[fname] = (_first_body_line(fn, locks), fn.end_lineno)
+    # nobody else may mutate the shared tables
+    known = set(spec.values())
+    for fname, fn in fns.items():
+        if fname in known:
+            continue
+        for n, w, _ in _accesses(fn, par, is_shared):
+            if w:
+                raise ScanError(f"runtime.py:{n.lineno}: {fname} mutates {n.id} (writer not modelled)")
+    return flags, detail, lines
+
+
+def scan_overload(path):
+    tree = _parse(path)
+    par = _parents(tree)
+    fns = _functions(tree)
+    reg = fns.get("Overloaded.register")
+    init = fns.get("Overloaded.__init__")
+    if reg is None or init is None:
+        raise ScanError("overload.py: Overloaded.register / __init__ not found")
+    is_lookup = lambda n: (isinstance(n, ast.Attribute) and n.attr == "lookup"  # noqa: E731
+                           and isinstance(n.value, ast.Name) and n.value.id == "self")
+    acc = _accesses(reg, par, is_lookup)
+    if not any(w for _, w, _ in acc):
+        raise ScanError("overload.py: Overloaded.register does not write self.lookup directly (shape not recognised)")
+    inst_locks = set()
+    for n in ast.walk(init):
+        if isinstance(n, ast.Assign) and isinstance(n.value, ast.Call):
+            for t in n.targets:
+                k = _expr_key(t)
+                if k and k.startswith("self.") and ("lock" in k.lower()):
+                    inst_locks.add(k)
+    locked = lambda ws: any(k in inst_locks for k in ws)  # noqa: E731
+    flags = {"register_rmw_atomic": all(locked(ws) for _, _, ws in acc)}
+    detail = {"Overloaded.register": [dict(name="self.lookup", line=n.lineno, write=w, locked=locked(ws))
+                                      for n, w, ws in acc]}
+    lines = {"Overloaded.register": (_first_body_line(reg, inst_locks), reg.end_lineno)}
+    for fname, fn in fns.items():
+        if fname in ("Overloaded.register", "Overloaded.__init__", "Overloaded.__setstate__"):
+            continue
+        for n, w, _ in _accesses(fn, par, is_lookup):
+            if w:
+                raise ScanError(f"overload.py:{n.lineno}: {fname} writes self.lookup (writer not modelled)")
+    # informational: _get_lock
+    info = {}
+    gl = fns.get("_get_lock")
+    if gl is not None:
+        mlocks = _module_locks(tree)
+        a = _accesses(gl, par, lambda n: isinstance(n, ast.Name) and n.id == "_LOCKS")
+        info["getlock_atomic"] = bool(a) and all(any(k in mlocks for k in ws) for _, _, ws in a)
+    return flags, detail, lines, info
+
+
+def scan_cache(path):
+    """line ranges used only to place action events of the line-level runs (never fail-closed)"""
+    lines = {}
+    try:
+        fns = _functions(_parse(path))
+    except ScanError:
+        return lines
+    for nm in ("MemoryCache.exists", "MemoryCache.get", "MemoryCache.set"):
+        if nm in fns:
+            body = [s for s in fns[nm].body if not (isinstance(s, ast.Expr) and isinstance(getattr(s, "value", None), ast.Constant))]
+            lines[nm] = ((body or fns[nm].body)[0].lineno, fns[nm].end_lineno)
+    return lines
+
+
+def scan_atomicity(repo):
+    f1, d1, l1 = scan_runtime(os.path.join(repo, "labrea", "runtime.py"))
+    f2, d2, l2, info = scan_overload(os.path.join(repo, "labrea", "overload.py"))
+    l3 = scan_cache(os.path.join(repo, "labrea", "cache.py"))
+    flags = dict(f1, **f2)
+    return dict(flags=flags, detail=dict(d1, **d2), info=info,
+                lines={"runtime.py": l1, "overload.py": l2, "cache.py": l3})
+
+
+def coq_flags(flags):
+    b = lambda x: "true" if x else "false"  # noqa: E731
+    return "(Build_flags " + " ".join(b(flags[n]) for n in FLAG_NAMES) + ")"
+
+
+def write_obligations(ctx, flags):
+    """Obligations_C15.v: the scanned flags + one lemma per hypothesis the theorems take, closed by
+    reflexivity, + the theorems instantiated at the scanned flags.  Each obligation is compiled in its
+    own file so that the failing ones can be named."""
+    results = {}
+    for flag, thms in NEEDED.items():
+        body = ["From Coq Require Import List NArith Bool.\n",
+                "From LV Require Import Model.Threads Model.ThreadsRun Properties.C15.\n",
+                f"Definition scanned_flags : flags := {coq_flags(flags)}.\n",
+                f"Lemma ob_{flag} : {flag} scanned_flags = true.\nProof. reflexivity. Qed.\n"]
+        for th in thms:
+            body.append(f"Definition {th}_at_source := fun fpf valf => {th} fpf valf scanned_flags ob_{flag}.\n"
+                        f"Check {th}_at_source.\n")
+        name = f"Obligations_C15_{flag}.v"
+        with open(ctx.scratch.path(name), "w") as fh:
+            fh.write("".join(body))
+        rc, out, err = lib.coqc(name, ctx.scratch.dir, timeout=300)
+        results[flag] = dict(ok=rc == 0, theorems=thms, error=None if rc == 0 else err[-600:])
+    return results
+
+
+# ----------------------------------------------------------------------------- the implementation world
+
+HEAP = {1: {1: 11}, 2: {1: 12, 2: 22}, 3: {2: 23, 3: 33}}     # runtime object -> {request type: tag}
+DEFAULTS = {1: 1, 2: 2}                                        # request type 3 has no default handler
+_BASE = {}
+
+
+def _base():
+    """request types and their default handlers: created once per process (they are global in labrea)"""
+    if _BASE:
+        return _BASE
+    import labrea  # noqa: F401
+    from labrea import Option, cached, dataset, runtime
+    from labrea.cache import MemoryCache
+    from labrea.overload import Overloaded
+    from labrea.types import Value
+
+    types = {}
+    for q in (1, 2, 3):
+        cls = type(f"VerifRequest{q}", (runtime.Request,), {
+            "__init__": lambda self, options=None: setattr(self, "options", options or {})})
+        types[q] = cls
+    for q, tg in DEFAULTS.items():
+        types[q].handle((lambda tg: (lambda request: tg))(tg))
+    _BASE.update(runtime=runtime, Option=Option, cached=cached, dataset=dataset, MemoryCache=MemoryCache,
+                 Overloaded=Overloaded, Value=Value, types=types,
+                 files={nm: os.path.realpath(sys.modules[f"labrea.{nm[:-3]}"].__file__)
+                        for nm in ("runtime.py", "overload.py", "cache.py")})
+    return _BASE
+
+
+def opts_of(o):
+    return {"X": o // 10, "Y": o % 10}
+
+
+class World:
+    """fresh shared objects for one run: runtime objects, one Overloaded, one cached evaluatable"""
+
+    def __init__(self, use_dataset=False):
+        B = _base()
+        self.B = B
+        rt = B["runtime"]
+        self.rts = {r: rt.Runtime({B["types"][q]: (lambda tg: (lambda request: tg))(tg) for q, tg in h.items()})
+                    for r, h in HEAP.items()}
+        self.rt_id = {id(o): r for r, o in self.rts.items()}
+        self.ov = B["Overloaded"](B["Option"]("DISPATCH"), {})
+        self.computes = []          # (thread name, x) per body execution
+        self.on_compute = None
+        w = self
+
+        def body(x):
+            if w.on_compute is not None:
+                w.on_compute()
+            w.computes.append(x)
+            return x
+
+        if use_dataset:
+            @B["dataset"]
+            def verif_ds(x=B["Option"]("X")):
+                return body(x)
+            self.ev = verif_ds
+        else:
+            self.ev = B["cached"](B["Option"]("X").apply(body), B["MemoryCache"]())
+        self.threads = {}
+        self.entered = {}           # tid -> stack of entered runtime objects (for the matching __exit__)
+        self.tags = {}
+        self.evals = {}
+        self.final = {}
+        self.errors = []
+
+    def exec_op(self, tid, op):
+        B = self.B
+        k = op[0]
+        try:
+            if k == "enter":
+                r = self.rts[op[1]]
+                r.__enter__()
+                self.entered[tid].append(r)
+            elif k == "exit":
+                if self.entered[tid]:
+                    self.entered[tid].pop().__exit__(None, None, None)
+            elif k == "run":
+                try:
+                    self.tags[tid].append(B["types"][op[1]]().run())
+                except TypeError:
+                    self.tags[tid].append(None)          # "No handler for request type"
+            elif k == "inherit":
+                B["runtime"].inherit(self.threads[op[1]])
+            elif k == "register":
+                self.ov.register(op[1], B["Value"](op[2]))
+            elif k == "eval":
+                self.evals[tid].append((op[1], self.ev.evaluate(opts_of(op[1]))))
+            elif k == "final":
+                cur = B["runtime"].current_runtime()
+                self.final[tid] = self.rt_id.get(id(cur), 0)
+            else:
+                raise AssertionError(op)
+        except Exception as e:  # an operation that raises is an observation, not a harness failure
+            self.errors.append((tid, op, type(e).__name__))
+            if k == "run":
+                self.tags[tid].append("ERR")
+            elif k == "eval":
+                self.evals[tid].append((op[1], "ERR"))
+            elif k == "final":
+                self.final[tid] = "ERR"
+
+    def table(self):
+        try:
+            return sorted((k, getattr(v, "value", "?")) for k, v in self.ov.lookup.items())
+        except Exception as e:
+            return [("ERR", type(e).__name__)]
+
+    def cleanup(self):
+        rt = self.B["runtime"]
+        for nm in ("_RUNTIMES", "_PREVIOUS"):
+            d = getattr(rt, nm, None)
+            if isinstance(d, dict):
+                for th in self.threads.values():
+                    d.pop(th, None)
+
+    def observation(self, tids, done=True):
+        parts = []
+        for t in tids:
+            tg = "[" + ",".join("none" if x is None else (f"some({x})" if x != "ERR" else "ERR") for x in self.tags[t]) + "]"
+            ev = "[" + ",".join(f"{o}:{v}" for o, v in self.evals[t]) + "]"
+            parts.append(f"T{t}:{tg};{ev};{self.final.get(t, 0)}")
+        tab = "[" + ",".join(f"{k}:{v}" for k, v in self.table()) + "]"
+        return "|".join(parts) + f"|tab={tab}|done={'T' if done else 'F'}"
+
+
+def reference(progs, order):
+    """The property's own yardstick, in Python: a stack of runtimes per thread.  `order` is the order in
+    which the operations took effect: list of (tid, op index).  Returns tags per thread, final runtime per
+    thread, expected table, expected evals."""
+    cur = {t: None for t in progs}
+    stack = {t: [] for t in progs}
+    tags = {t: [] for t in progs}
+    evals = {t: [] for t in progs}
+    table = {}
+    for t, i in order:
+        op = progs[t][i]
+        k = op[0]
+        if k == "enter":
+            stack[t].append(cur[t]); cur[t] = op[1]
+        elif k == "exit":
+            if stack[t]:
+                cur[t] = stack[t].pop()
+        elif k == "run":
+            r = cur[t] or 0
+            cur[t] = r if cur[t] is not None else 0
+            tags[t].append(HEAP.get(r, {}).get(op[1], DEFAULTS.get(op[1])))
+        elif k == "inherit":
+            cur[t] = cur[op[1]] if cur[op[1]] is not None else 0
+        elif k == "register":
+            table[op[1]] = op[2]
+        elif k == "eval":
+            evals[t].append((op[1], op[1] // 10))
+    final = {t: (cur[t] or 0) for t in progs}
+    return tags, final, sorted(table.items()), evals
+
+
+# ----------------------------------------------------------------------------- operation-level scheduler
+
+class Hang(Exception):
+    pass
+
+
+def run_oplevel(progs, sched, use_dataset=False):
+    """Run `progs` ({tid: [op]}) on labrea; `sched` is a list of thread ids, each entry lets that thread
+    execute its next whole operation.  Returns (observation string, order, world)."""
+    w = World(use_dataset)
+    tids = sorted(progs)
+    go = {t: threading.Semaphore(0) for t in tids}
+    done = threading.Semaphore(0)
+    nxt = {t: 0 for t in tids}
+    cmd = {}
+    stop = []
+
+    def worker(t):
+        while True:
+            if not go[t].acquire(timeout=WAIT * 3) or stop:
+                return
+            op = cmd[t]
+            if op is None:
+                return
+            w.exec_op(t, op)
+            done.release()
+
+    for t in tids:
+        w.threads[t] = threading.Thread(target=worker, args=(t,), daemon=True, name=f"c15-op-{t}")
+        w.entered[t], w.tags[t], w.evals[t] = [], [], []
+    for t in tids:
+        w.threads[t].start()
+    order = []
+
+    def tell(t, op):
+        cmd[t] = op
+        go[t].release()
+        if op is not None and not done.acquire(timeout=WAIT):
+            stop.append(1)
+            for u in tids:
+                go[u].release()
+            raise Hang(f"operation {op} of thread {t} did not complete within {WAIT}s")
+
+    try:
+        for t in sched:
+            if nxt[t] < len(progs[t]):
+                order.append((t, nxt[t]))
+                tell(t, progs[t][nxt[t]])
+                nxt[t] += 1
+        for t in tids:
+            tell(t, ("final",))
+    finally:
+        for t in tids:
+            if not stop:
+                cmd[t] = None
+                go[t].release()
+        for t in tids:
+            w.threads[t].join(timeout=WAIT)
+        w.cleanup()
+    finished = all(nxt[t] == len(progs[t]) for t in tids)
+    return w.observation(tids, finished), order, w
+
+
+def interleavings(lens):
+    """all merges of sequences of the given lengths ({tid: n}) as lists of tids"""
+    tids = sorted(lens)
+    out = []
+
+    def rec(rem, acc):
+        if not any(rem.values()):
+            out.append(list(acc))
+            return
+        for t in tids:
+            if rem[t]:
+                rem[t] -= 1
+                acc.append(t)
+                rec(rem, acc)
+                acc.pop()
+                rem[t] += 1
+    rec(dict(lens), [])
+    return out
+
+
+# ----------------------------------------------------------------------------- Coq rendering
+
+def coq_op(op):
+    k = op[0]
+    if k == "enter":
+        return f"Enter {op[1]}"
+    if k == "exit":
+        return "Exit"
+    if k == "run":
+        return f"Run {op[1]}"
+    if k == "inherit":
+        return f"Inherit {op[1]}"
+    if k == "register":
+        return f"Register {op[1]} {op[2]}"
+    if k == "eval":
+        return f"EvalCached {op[1]}"
+    raise AssertionError(op)
+
+
+def coq_progs(progs):
+    return "[" + "; ".join(f"({t}, [" + "; ".join(coq_op(o) for o in progs[t]) + "])" for t in sorted(progs)) + "]"
+
+
+COQ_PRELUDE = ("Open Scope N_scope.\n"
+               "Definition hp : list (rt * htable) := ["
+               + "; ".join(f"({r}, [" + "; ".join(f"({q}, {g})" for q, g in sorted(h.items())) + "])"
+                           for r, h in sorted(HEAP.items())) + "].\n"
+               "Definition df : htable := [" + "; ".join(f"({q}, {g})" for q, g in sorted(DEFAULTS.items())) + "].\n")
+
+
+def coq_case(flags, progs, sched, oplevel):
+    fn = "observe_ops" if oplevel else "observe"
+    return f"{fn} {coq_flags(flags)} hp df {coq_progs(progs)} [" + "; ".join(str(t) for t in sched) + "]"
+
+
+# ----------------------------------------------------------------------------- line-level scheduler
+
+_WITH_LINES = {}
+
+
+def with_lines(path):
+    """{lineno: compiled context expression} for every `with` statement of the file"""
+    if path not in _WITH_LINES:
+        out = {}
+        try:
+            tree = _parse(path)
+            for n in ast.walk(tree):
+                if isinstance(n, ast.With):
+                    out[n.lineno] = [compile(ast.Expression(i.context_expr), path, "eval") for i in n.items]
+        except Exception:
+            out = {}
+        _WITH_LINES[path] = out
+    return _WITH_LINES[path]
+
+
+class LineRun:
+    """One run of `progs` under a line-level (optionally opcode-level) controlled schedule.
+
+    Exactly one worker holds the baton.  A worker gives it up (a) when the schedule says so at a yield
+    point (`preempts`: {global yield index: target tid}), (b) when the line it is about to execute is a
+    `with <lock>` whose lock is held by a parked worker (forced, not counted), (c) when it finishes.
+    Yield points are the 'line' (or 'opcode') trace events inside the given labrea files."""
+
+    def __init__(self, progs, files, preempts, start=None, scan=None, opcodes=False, use_dataset=False):
+        self.w = World(use_dataset)
+        self.progs = progs
+        self.tids = sorted(progs)
+        self.files = {_base()["files"][f]: f for f in files}
+        self.preempts = dict(preempts)
+        self.start = start if start is not None else self.tids[0]
+        self.scan = scan or {"lines": {}}
+        self.opcodes = opcodes
+        self.sem = {t: threading.Semaphore(0) for t in self.tids}
+        self.finished = set()
+        self.alldone = threading.Event()
+        self.abort = None
+        self.nyield = 0
+        self.trace = []            # per yield index: (tid, file, line, tuple(other unfinished tids))
+        self.order = []            # action events (tid, op index, kind)
+        self.curop = {t: None for t in self.tids}
+        self.seen = {}             # (tid, op index) -> set of kinds already recorded
+        self.owner = {}
+        self.forced = 0
+        self.tid_of = {}
+        self.w.on_compute = self._on_compute
+        L = self.scan["lines"]
+        rl, ol, cl = L.get("runtime.py", {}), L.get("overload.py", {}), L.get("cache.py", {})
+        self.action_line = {
+            "enter": ("runtime.py", rl.get("Runtime.__enter__")), "exit": ("runtime.py", rl.get("Runtime.__exit__")),
+            "run": ("runtime.py", rl.get("current_runtime")), "inherit": ("runtime.py", rl.get("inherit")),
+            "register": ("overload.py", ol.get("Overloaded.register"))}
+        self.cache_lines = {k: cl.get(f"MemoryCache.{k}") for k in ("exists", "get", "set")}
+
+    # -- baton
+    def _switch(self, me, target):
+        self.sem[target].release()
+        if not self.sem[me].acquire(timeout=WAIT):
+            self.abort = self.abort or f"thread {me} never got the baton back"
+            raise Hang(self.abort)
+
+    def _others(self, me):
+        return tuple(t for t in self.tids if t != me and t not in self.finished)
+
+    def _blocked(self, me, frame, path):
+        codes = with_lines(path).get(frame.f_lineno)
+        if not codes:
+            return False
+        for c in codes:
+            try:
+                obj = eval(c, frame.f_globals, frame.f_locals)
+            except Exception:
+                continue
+            lk = getattr(obj, "locked", None)
+            if lk is None:
+                continue
+            if lk() and self.owner.get(id(obj)) != me:
+                return True
+        for c in codes:
+            try:
+                obj = eval(c, frame.f_globals, frame.f_locals)
+                if hasattr(obj, "locked"):
+                    self.owner[id(obj)] = me
+            except Exception:
+                pass
+        return False
+
+    def _yield(self, me, frame, path):
+        if self.abort:
+            return
+        k = self.nyield
+        self.nyield += 1
+        others = self._others(me)
+        self.trace.append((me, self.files[path], frame.f_lineno, others))
+        tgt = self.preempts.get(k)
+        if tgt is not None and tgt in others:
+            self._switch(me, tgt)
+        spins = 0
+        while self._blocked(me, frame, path):
+            others = self._others(me)
+            spins += 1
+            if not others or spins > 200:
+                self.abort = f"thread {me} blocked on a lock nobody will release (line {frame.f_lineno})"
+                raise Hang(self.abort)
+            self.forced += 1
+            self._switch(me, others[(spins - 1) % len(others)])
+        self._action(me, self.files[path], frame.f_lineno)
+
+    # -- action events (where an operation takes effect), used to map the run to a model schedule
+    def _note(self, me, kind):
+        cur = self.curop[me]
+        if cur is None:
+            return
+        s = self.seen.setdefault((me, cur[0]), set())
+        if kind not in s:
+            s.add(kind)
+            self.order.append((me, cur[0], kind))
+
+    def _action(self, me, fname, line):
+        cur = self.curop[me]
+        if cur is None:
+            return
+        k = cur[1][0]
+        if k == "eval":
+            if fname != "cache.py":
+                return
+            done = self.seen.get((me, cur[0]), set())
+            for kind, rng in self.cache_lines.items():
+                if rng and rng[0] <= line <= rng[1]:
+                    if kind == "exists":
+                        self._note(me, "E")
+                    elif kind == "set":
+                        self._note(me, "S")
+                    elif kind == "get" and "S" not in done and "C" not in done:
+                        self._note(me, "G")
+            return
+        f, rng = self.action_line.get(k, (None, None))
+        if rng and f == fname and line == rng[0]:
+            self._note(me, "A")
+
+    def _on_compute(self):
+        me = self.tid_of.get(threading.get_ident())
+        if me is not None:
+            self._note(me, "C")
+
+    # -- tracing
+    def _tracer(self, me):
+        files = self.files
+        run = self
+
+        def local(frame, event, arg):
+            if event == "line" or event == "opcode":
+                run._yield(me, frame, frame.f_code.co_filename)
+            return local
+
+        def glob(frame, event, arg):
+            if frame.f_code.co_filename in files:
+                if run.opcodes:
+                    frame.f_trace_opcodes = True
+                return local
+            return None
+        return glob
+
+    def _worker(self, me):
+        self.tid_of[threading.get_ident()] = me
+        if not self.sem[me].acquire(timeout=WAIT * 3):
+            return
+        w = self.w
+        try:
+            sys.settrace(self._tracer(me))
+            try:
+                for i, op in enumerate(self.progs[me]):
+                    self.curop[me] = (i, op)
+                    w.exec_op(me, op)
+                self.curop[me] = None
+            finally:
+                sys.settrace(None)
+            w.exec_op(me, ("final",))
+        except Hang:
+            pass
+        finally:
+            sys.settrace(None)
+            self.finished.add(me)
+            rest = [t for t in self.tids if t not in self.finished]
+            if rest and not self.abort:
+                self.sem[rest[0]].release()
+            else:
+                for t in rest:
+                    self.sem[t].release()
+                self.alldone.set()
+
+    def go(self):
+        w = self.w
+        for t in self.tids:
+            w.threads[t] = threading.Thread(target=self._worker, args=(t,), daemon=True, name=f"c15-line-{t}")
+            w.entered[t], w.tags[t], w.evals[t] = [], [], []
+        for t in self.tids:
+            w.threads[t].start()
+        self.sem[self.start].release()
+        ok = self.alldone.wait(timeout=WAIT * 4)
+        if not ok:
+            self.abort = self.abort or "run did not finish"
+            for t in self.tids:
+                self.sem[t].release()
+        for t in self.tids:
+            w.threads[t].join(timeout=1.0 if self.abort else WAIT)
+        w.cleanup()
+        if self.abort:
+            raise Hang(self.abort)
+        return w.observation(self.tids, True)
+
+
+def explore_line(progs, files, bound, scan, opcodes=False, budget=None, rng=None, use_dataset=False):
+    """All schedules of `progs` with at most `bound` preemptions (systematic; when `budget` runs is
+    exceeded the remaining frontier is sampled with rng).  Yields (LineRun | None, preempts, start, error)."""
+    tids = sorted(progs)
+    frontier = [({}, s) for s in tids]
+    runs = 0
+    while frontier:
+        if budget is not None and runs >= budget:
+            return
+        if budget is not None and rng is not None and len(frontier) > 4 * budget:
+            frontier = rng.sample(frontier, 2 * budget)
+        P, start = frontier.pop(0)
+        r = LineRun(progs, files, P, start=start, scan=scan, opcodes=opcodes, use_dataset=use_dataset)
+        runs += 1
+        try:
+            r.obs = r.go()
+        except Hang as e:
+            yield None, P, start, str(e)
+            continue
+        yield r, P, start, None
+        if len(P) < bound:
+            last = (max(P) + 1) if P else 0
+            for k in range(last, r.nyield):
+                me, _, _, others = r.trace[k]
+                for u in others:
+                    frontier.append((dict(P, **{k: u}), start))
+
+
+def model_schedule(progs, order):
+    """Map the action events of a line-level run to an action-level schedule of the model (all flags
+    atomic): one entry per non-eval operation where it took effect; four per EvalCached (exists / get /
+    compute / set), the ones that are local no-ops placed right after the preceding real event.
+    Returns (schedule, effect order [(tid, op index)]) or None when the events are incomplete."""
+    kinds = {}
+    for t, i, k in order:
+        kinds.setdefault((t, i), []).append(k)
+    for t in progs:
+        for i, op in enumerate(progs[t]):
+            ks = kinds.get((t, i), [])
+            if op[0] == "eval":
+                if "E" not in ks or not ("G" in ks or ("C" in ks and "S" in ks)) or ("C" in ks) != ("S" in ks):
+                    return None
+            elif ks != ["A"]:
+                return None
+    sched, eff = [], []
+    for t, i, k in order:
+        ks = kinds[(t, i)]
+        if k == "A":
+            sched.append(t); eff.append((t, i))
+        elif k == "E":
+            sched += [t] if "G" in ks else [t, t]
+            eff.append((t, i))
+        elif k == "G":
+            sched += [t] if "C" in ks else [t, t, t]
+        else:
+            sched.append(t)
+    return sched, eff
+
+
+# ----------------------------------------------------------------------------- the property oracle
+
+_SOLO = {}
+
+
+def solo_obs(t, prog):
+    """what thread t observes when it runs its program alone (on the implementation)"""
+    key = (t, tuple(prog))
+    if key not in _SOLO:
+        _, _, w = run_oplevel({t: list(prog)}, [t] * len(prog))
+        _SOLO[key] = (list(w.tags[t]), w.final.get(t), list(w.evals[t]))
+    return _SOLO[key]
+
+
+def oracle(progs, w, eff_order):
+    """The property text on the observations of one run.  eff_order: the order in which operations took
+    effect when known (needed only for inherit and for 'last writer'), else None.  Returns list of str."""
+    bad = []
+    if w.errors:
+        bad.append(f"operations raised: {w.errors[:3]}")
+    ref = reference(progs, eff_order) if eff_order is not None else None
+    for t, prog in progs.items():
+        has_inh = any(o[0] == "inherit" for o in prog)
+        if not has_inh:
+            stags, sfinal, _ = solo_obs(t, prog)
+            if w.tags[t] != stags:
+                bad.append(f"isolation: thread {t} observed handler tags {w.tags[t]} but {stags} when run alone")
+            if w.final.get(t) != sfinal:
+                bad.append(f"isolation: thread {t} ends in runtime {w.final.get(t)} but {sfinal} when run alone")
+        elif ref is not None:
+            if w.tags[t] != ref[0][t]:
+                bad.append(f"inherit: thread {t} observed {w.tags[t]}, its parent's handlers at that moment give {ref[0][t]}")
+            if w.final.get(t) != ref[1][t]:
+                bad.append(f"inherit: thread {t} ends in runtime {w.final.get(t)}, expected {ref[1][t]}")
+        want = [(o[1], o[1] // 10) for o in prog if o[0] == "eval"]
+        if w.evals[t] != want:
+            bad.append(f"cached evaluation: thread {t} got {w.evals[t]}, the values of its own options are {want}")
+    regs = {}
+    for t, prog in progs.items():
+        for o in prog:
+            if o[0] == "register":
+                regs.setdefault(o[1], set()).add(o[2])
+    tab = dict(w.table())
+    for a, impls in regs.items():
+        if a not in tab:
+            bad.append(f"register: alias {a} registered but absent from the final table {sorted(tab.items())}")
+        elif tab[a] not in impls:
+            bad.append(f"register: alias {a} maps to {tab[a]}, never registered for it")
+    for a in tab:
+        if a not in regs:
+            bad.append(f"register: alias {a} in the table was never registered")
+    if ref is not None and not any(b.startswith("register") for b in bad) and sorted(tab.items()) != ref[2]:
+        bad.append(f"register: final table {sorted(tab.items())} differs from last-writer-wins {ref[2]}")
+    return bad
